@@ -63,9 +63,9 @@ def C := asciiB "c:80"
     is **false of the code** in three classes.
     F2′: a request routed/gated before the swap claims the replaced target after the deploy returned. -/
 def f2_served_after_return : List Op :=
-  [.deploy 1 s1 false [A] 2000000000 700000000,
+  [.deploy 1 s1 s1 false [A] 2000000000 700000000,
    .arm "req.gated", .req 1 s1 [] false, .disarm "req.gated",
-   .deploy 2 s1 false [B] 2000000000 700000000,
+   .deploy 2 s1 s1 false [B] 2000000000 700000000,
    .release "req.gated" "r1"]
 
 theorem C03_witness_served_after_return :
@@ -76,10 +76,10 @@ theorem C03_witness_served_after_return :
     0.1 s with one request in flight, deploy at 0.2 s returns at 0.2 s with that request still
     being served by the replaced target. -/
 def f12 : List Op :=
-  [.hold A true, .deploy 1 s1 false [A] 2000000000 5000000000,
+  [.hold A true, .deploy 1 s1 s1 false [A] 2000000000 5000000000,
    .req 1 s1 [] false, .advance 100000000,
    .pause 2 s1 5000000000 30000000000, .advance 100000000,
-   .deploy 3 s1 false [B] 2000000000 5000000000]
+   .deploy 3 s1 s1 false [B] 2000000000 5000000000]
 
 theorem C03_witness_F12 :
     (runOps f12).now = 200000000 ∧ (runOps f12).events.contains "cmd c3 res=ok" = true ∧
@@ -88,10 +88,10 @@ theorem C03_witness_F12 :
 /-- F16: two overlapping deploys of one service: the load balancer installed first is replaced
     without ever being drained or disposed — its target is probed forever. -/
 def f16 : List Op :=
-  [.deploy 1 s1 false [A] 2000000000 700000000,
+  [.deploy 1 s1 s1 false [A] 2000000000 700000000,
    .arm "deploy.healthy",
-   .deploy 2 s1 false [B] 2000000000 700000000,
-   .deploy 3 s1 false [C] 2000000000 700000000,
+   .deploy 2 s1 s1 false [B] 2000000000 700000000,
+   .deploy 3 s1 s1 false [C] 2000000000 700000000,
    .disarm "deploy.healthy",
    .release "deploy.healthy" "s1", .release "deploy.healthy" "s1", .advance 10000000000]
 
@@ -101,15 +101,15 @@ theorem C03_witness_F16 :
   decide +kernel
 
 -- tests by evaluation: in-flight request finishing early / cut at the deadline with 504
-example : ((runOps [.hold A true, .deploy 1 s1 false [A] 2000000000 700000000, .req 1 s1 [] false,
-    .deploy 2 s1 false [B] 2000000000 700000000, .advance 300000000, .respond 1 200, .advance 1000000000]).events.filter
+example : ((runOps [.hold A true, .deploy 1 s1 s1 false [A] 2000000000 700000000, .req 1 s1 [] false,
+    .deploy 2 s1 s1 false [B] 2000000000 700000000, .advance 300000000, .respond 1 200, .advance 1000000000]).events.filter
       fun e => e.startsWith "done" || e.startsWith "cmd c2") = ["done r1 status=200 by=a:80", "cmd c2 res=ok"] := by
   decide +kernel
-example : ((runOps [.hold A true, .deploy 1 s1 false [A] 2000000000 700000000, .req 1 s1 [] false,
-    .deploy 2 s1 false [B] 2000000000 700000000, .advance 699999999]).events.filter
+example : ((runOps [.hold A true, .deploy 1 s1 s1 false [A] 2000000000 700000000, .req 1 s1 [] false,
+    .deploy 2 s1 s1 false [B] 2000000000 700000000, .advance 699999999]).events.filter
       fun e => e.startsWith "done" || e.startsWith "cmd c2") = [] := by decide +kernel
-example : ((runOps [.hold A true, .deploy 1 s1 false [A] 2000000000 700000000, .req 1 s1 [] false,
-    .deploy 2 s1 false [B] 2000000000 700000000, .advance 700000000]).events.filter
+example : ((runOps [.hold A true, .deploy 1 s1 s1 false [A] 2000000000 700000000, .req 1 s1 [] false,
+    .deploy 2 s1 s1 false [B] 2000000000 700000000, .advance 700000000]).events.filter
       fun e => e.startsWith "done" || e.startsWith "cmd c2") = ["done r1 status=504 by=-", "cmd c2 res=ok"] := by
   decide +kernel
 
